@@ -228,6 +228,12 @@ def direct_cases(rng):
     add("mprod", "more modes than factor matrices", True, lambda x3=x3: x3.mprod([torch.ones(2, 3, dtype=torch.float64)], [0, 2]))
     add("mprod", "more factor matrices than modes", True, lambda x3=x3: x3.mprod([torch.ones(2, 3, dtype=torch.float64), torch.ones(2, 2, dtype=torch.float64)], [0]))
     add("dot(axis)", "an axis named twice", False, lambda x3=x3: torchtt.dot(x3, T(rng, [3, 2]), [0, 0, 2]))
+    # cores that are not torch tensors (the constructor documents a list of torch tensors): no object may come back whose full() then fails
+    add("TT(cores)", "numpy arrays as cores", False, lambda: torchtt.TT([np.ones((1, 2, 2)), np.ones((2, 3, 1))]))
+    add("TT(cores)", "one numpy array among the cores", False, lambda: torchtt.TT([torch.ones(1, 2, 2, dtype=torch.float64), np.ones((2, 3, 1))]))
+    add("TT(cores)", "nested lists as cores", False, lambda: torchtt.TT([[[[1.0], [2.0]]], [[[1.0], [2.0]]]]))
+    add("rank1TT", "numpy vectors", False, lambda: torchtt.rank1TT([np.ones(3), np.ones(2)]))
+    add("set_core", "numpy array as the new core", False, lambda: T(rng, [2, 3]).set_core(0, np.ones((1, 2, 1))))
     # invalid rank caps: a cap below 1, a per-bond list that is too short
     xr = T(rng, [3, 4, 5])
     add("round", "rank cap 0", False, lambda xr=xr: xr.round(1e-3, 0))
